@@ -246,10 +246,10 @@ Qed.
 
 (* recurring digits *)
 Lemma recurring_spec : forall b sep r k rest, 2 <= b <= 36 -> drun_ok b r = true ->
-  parse_recurring_digits b sep k ([40] ++ show_drun sep r ++ [41] ++ rest) =
+  parse_recurring_digits b sep k (40 :: show_drun sep r ++ 41 :: rest) =
   LOk ((qN (drun_val b r) / qN ((b ^ drun_len r - 1) * b ^ k))%Q, rest).
 Proof.
-  intros b sep r k rest Hb Hr. unfold parse_recurring_digits. cbn [app starts_with tl].
+  intros b sep r k rest Hb Hr. unfold parse_recurring_digits. cbn [starts_with tl].
   rewrite N.eqb_refl.
   assert (Hfirst : wd_val (dr_first r) < b).
   { unfold drun_ok, drun_digits in Hr. cbn [forallb] in Hr. lia. }
@@ -337,7 +337,7 @@ Proof.
     apply andb_prop in Hfr as [Hff Hrr].
     eexists. split.
     + cbn [app]. unfold pbn_frac. rewrite N.eqb_refl.
-      rewrite <- !app_assoc.
+      rewrite <- !app_assoc. cbn [app].
       rewrite starts_with_drun_40 by (pose proof (first_lt b f Hff); lia).
       rewrite parse_integer_drun; [|lia|assumption|apply stop_paren].
       cbn [lbind]. rewrite recurring_spec by assumption. cbn [lbind fst snd]. reflexivity.
@@ -352,8 +352,8 @@ Proof.
   - (* .(r) *)
     eexists. split.
     + cbn [app]. unfold pbn_frac. rewrite N.eqb_refl.
-      change (40 :: show_drun sep r ++ 41 :: tail) with ([40] ++ show_drun sep r ++ [41] ++ tail).
-      replace (starts_with 40 ([40] ++ show_drun sep r ++ [41] ++ tail)) with true by reflexivity.
+      rewrite <- !app_assoc. cbn [app].
+      replace (starts_with 40 (40 :: show_drun sep r ++ 41 :: tail)) with true by reflexivity.
       cbn [lbind]. rewrite recurring_spec by assumption. cbn [lbind fst snd]. reflexivity.
     + rewrite N.pow_0_r, N.mul_1_r. change (qN 0 / qN 1)%Q with (0 / 1)%Q. field.
       apply qN_pos.
